@@ -6,10 +6,10 @@ from runner import VERIF, REPO, ToolError
 UNITS = {
     "sta": {"template": "units/sta.vt", "packages": ["adss", "sta-rs"],
             "externs": {"strobe_rs": "strobe_rs", "real_sharks": "star_sharks", "ff": "ff", "subtle": "subtle",
-                        "rand": "rand", "rand_core": "rand_core"}},
+                        "rand": "rand", "rand_core": "rand_core", "zeroize": "zeroize"}},
     "ppo": {"template": "units/ppo.vt", "packages": ["ppoprf"],
             "externs": {"strobe_rs": "strobe_rs", "curve25519_dalek": "curve25519_dalek", "rand": "rand",
-                        "rand_core": "rand_core", "serde": "serde", "bincode": "bincode"}},
+                        "rand_core": "rand_core", "serde": "serde", "bincode": "bincode", "zeroize": "zeroize"}},
     "canary": {"template": "units/canary.vt", "packages": [], "externs": {}},
 }
 
@@ -23,6 +23,8 @@ class UnitResult:
         self.records = []          # emit.FnRecord
         self.failures = []         # dict(fn, kind, safety, text, rendered, src, line)
         self.tool_errors = []      # strings -> undecided
+        self.tool_culprits = []    # qnames of extracted functions a tool error points into
+        self.demoted = {}          # qname -> reason
         self.lemmas = {}           # name -> success
         self.times = {}
         self.assumptions = []
@@ -91,15 +93,16 @@ def scan_assumptions(text):
             seen.add(a); res.append(a)
     return res
 
-def verify_unit(unit, repo_copy, workdir, extra=None):
+def verify_unit_once(unit, repo_copy, workdir, extra=None, demote=None):
     U = UNITS[unit]
     R = UnitResult(unit)
     arts, deps = {}, os.path.join(runner.CACHE, "vtarget", "debug", "deps")
     if U["packages"]:
         arts, deps, bt = runner.build_deps(repo_copy, U["packages"])
         R.times["cargo_build_s"] = round(bt, 2)
-    E = emit.Emitter(repo_copy, VERIF)
+    E = emit.Emitter(repo_copy, VERIF, demote=demote)
     text = E.process(U["template"])       # may raise EmitError
+    R.emitter = E
     out = os.path.join(workdir, "vunit_%s.rs" % unit)
     open(out, "w").write(text)
     R.records = E.records
@@ -136,10 +139,16 @@ def verify_unit(unit, repo_copy, workdir, extra=None):
         spans = [s for s in d.get("spans", []) if s.get("file_name", "").endswith(fname)]
         if cls == "tool":
             where = ""
+            culprit = None
             if spans:
                 ln = spans[0]["line_start"]; src = E.line_src.get(ln)
                 where = " [%s:%d]" % src if src else " [generated line %d]" % ln
+                for r in E.records:
+                    if r.out_first <= ln <= r.out_last:
+                        culprit = r.qname
             R.tool_errors.append("verus: %s%s" % (d.get("message", "")[:400], where))
+            if culprit:
+                R.tool_culprits.append(culprit)
             continue
         # semantic failure: locate function
         rec, primary = None, None
@@ -182,7 +191,8 @@ def verify_unit(unit, repo_copy, workdir, extra=None):
                 if a <= primary["line_start"] <= b and gk != "ghost:spec" and not gk.startswith("ghost:loop"):
                     in_ghost = True
         src = E.line_src.get(primary["line_start"]) if primary else None
-        props = [rec.safety] if (safety and rec.safety) else list(rec.props)
+        sp = rec.safety.split() if isinstance(rec.safety, str) else (rec.safety or [])
+        props = sp if (safety and sp) else list(rec.props)
         R.failures.append({
             "fn": rec.qname, "file": rec.file, "kind": ("panic-freedom:" + kind) if safety else kind,
             "proof_hint": in_ghost, "text": d.get("message"), "clause": clause,
@@ -192,6 +202,34 @@ def verify_unit(unit, repo_copy, workdir, extra=None):
         })
     if vres.get("encountered-vir-error") or (not vres.get("success") and not R.failures and not R.tool_errors):
         R.tool_errors.append("verus stopped before verification: " + vr["stderr"][-1500:])
+    return R
+
+def verify_unit(unit, repo_copy, workdir, extra=None):
+    """Verify a unit; when Verus rejects the *text* of an extracted function (unsupported construct,
+    type error after a refactoring), demote that function to an assumed contract and re-run, so that
+    the rest of the unit is still decided.  Demoted functions are decided by their Kani twins."""
+    demote = {}
+    R = None
+    for attempt in range(6):
+        try:
+            R = verify_unit_once(unit, repo_copy, workdir, extra=extra, demote=set(demote))
+        except emit.EmitError as e:
+            # a lost anchor inside one function: demote that function if we can name it
+            m = re.search(r" in (.+?) \(", str(e)) or re.search(r"of (.+?) \(found", str(e))
+            name = m.group(1) if m else None
+            if name and name not in demote and "lost anchor" in str(e) and "file" not in str(e):
+                demote[name] = str(e); continue
+            raise
+        new = [c for c in R.tool_culprits if c not in demote]
+        if not new:
+            break
+        for c in new:
+            demote[c] = "; ".join(t for t in R.tool_errors)[:300]
+    R.demoted = demote
+    if demote:
+        # tool errors that were resolved by demotion are not undecided-for-everything any more
+        if not R.tool_culprits:
+            R.tool_errors = [t for t in R.tool_errors if False]
     return R
 
 def emit_norm(s):
@@ -226,7 +264,7 @@ def fn_time_us(R, rec):
 
 def run_check(pid, tier, seed):
     props = load_props()
-    if pid not in props:
+    if pid not in props or pid.startswith("_"):
         print("unknown or not-applicable property %s" % pid); return 2
     P = props[pid]
     t0 = time.time()
@@ -237,6 +275,8 @@ def run_check(pid, tier, seed):
     solver_ms = 0.0
     unit_info = {}
     bounded = []
+    needs_twin, want_cex = [], []
+    twins = props.get("_twins", {})
     # ---- E1 Verus
     for unit in P.get("units", []):
         try:
@@ -264,20 +304,32 @@ def run_check(pid, tier, seed):
                 continue
             failed_fns.setdefault(f["fn"], []).append(f)
         for rec in R.records:
-            relevant = pid in rec.props or rec.safety == pid
+            safety_props = rec.safety.split() if isinstance(rec.safety, str) else (rec.safety or [])
+            relevant = pid in rec.props or pid in safety_props
             if not relevant:
                 continue
             fl = [f for f in failed_fns.get(rec.qname, []) if pid in f["props"]]
+            demoted = rec.qname in R.demoted
             ent = {"function": rec.qname, "file": "%s:%d" % (rec.file, rec.src_line), "mode": "proved-verus" if rec.mode == "proved" else "assumed-in-verus",
                    "backend": "verus/z3", "solver_us": fn_time_us(R, rec), "rewrites": rec.rewrites,
                    "role": "contract" if pid in rec.props else "panic-freedom only"}
-            if rec.mode == "proved":
+            if rec.lost_hints:
+                ent["lost_hints"] = rec.lost_hints
+            if rec.mode in ("proved", "demoted"):
                 obligations += 1
                 solver_ms += ent["solver_us"] / 1000.0
-                if not fl and not R.tool_errors:
+                if demoted or (fl and rec.lost_hints):
+                    # the changed text is outside Verus' reach (unsupported construct / proof hint could not
+                    # be placed): Verus does not decide this function any more; its bounded Kani twin does
+                    ent["status"] = "not decided by verus: " + (R.demoted.get(rec.qname) or "proof hints lost: %s" % rec.lost_hints)[:300]
+                    ent["mode"] = "demoted (kani twin decides)"
+                    needs_twin.append((unit, rec))
+                    fl = []
+                elif not fl and not R.tool_errors:
                     discharged += 1; ent["status"] = "discharged"
                 elif fl:
                     ent["status"] = "FAILED"
+                    want_cex.append((unit, rec))
                 else:
                     ent["status"] = "undecided"
                 if len(samples) < 6 and rec.clauses:
@@ -303,6 +355,16 @@ def run_check(pid, tier, seed):
                                 "role": "property-level lemma over the contracts"})
     # ---- E2 Kani
     harnesses = [h for h in P.get("kani", []) if tier == "thorough" or not h.get("thorough_only")]
+    have = set(h["harness"] for h in harnesses)
+    twin_of = {}
+    for (unit, rec) in needs_twin + want_cex:
+        tl = twins.get("%s/%s" % (unit, rec.qname), [])
+        if not tl and (unit, rec) in needs_twin:
+            undecided.append("%s/%s is no longer within Verus' reach after the change and has no Kani twin" % (unit, rec.qname))
+        for h in tl:
+            twin_of[h["harness"]] = (unit, rec, (unit, rec) in needs_twin)
+            if h["harness"] not in have:
+                harnesses.append(dict(h, twin=True)); have.add(h["harness"])
     if harnesses:
         try:
             kres = kanirun.run_harnesses(repo_copy, sdir, harnesses, tier)
@@ -317,6 +379,8 @@ def run_check(pid, tier, seed):
                    "mode": "proved-kani-complete" if h.get("complete") else "bounded(%s)" % h.get("bound", "?"),
                    "solver_us": int(res["wall_s"] * 1e6), "status": res["status"], "stubs": res.get("stubs", [])}
             fns.append(ent)
+            if h["harness"] in twin_of:
+                ent["twin_of"] = "%s/%s" % (twin_of[h["harness"]][0], twin_of[h["harness"]][1].qname)
             if h.get("complete"):
                 obligations += 1
                 if res["status"] == "SUCCESSFUL":
@@ -324,6 +388,12 @@ def run_check(pid, tier, seed):
             else:
                 bounded.append({"harness": h["harness"], "bound": h.get("bound"), "status": res["status"], "about": h["about"]})
             solver_ms += res["wall_s"] * 1000.0
+            if res["status"] == "FAILED" and h["harness"] in twin_of and not twin_of[h["harness"]][2]:
+                # counterexample for a Verus failure already reported: attach the input, no second violation
+                for v in violations:
+                    if v.get("fn") == twin_of[h["harness"]][1].qname and not v.get("input"):
+                        v["input"] = res.get("playback") or {"kani_failed_checks": res.get("failed_checks", "")[:1500], "harness": h["harness"]}
+                continue
             if res["status"] == "FAILED":
                 violations.append({"fn": h["about"], "kind": "kani:" + ("complete" if h.get("complete") else "bounded"),
                                    "text": res.get("failed_checks", "")[:2000], "clause": h["harness"], "props": [pid],
